@@ -7,6 +7,7 @@ RectClip64::Execute).  The correspondence harness `harness/C12.cpp` replays ever
 compares its private members with `History` (`HISTREPLAY`), and the final frame members of a real ClipperOffset with
 `OffsetState` (`OFFFRAME`).
 -/
+import ClipperVerif.Generated.Engine
 import ClipperVerif.Lemmas.History
 import ClipperVerif.Model.OffsetState
 import ClipperVerif.Model.RectClipFrame
@@ -248,5 +249,23 @@ def rL : Container := ⟨[⟨50, -20, .subject, true, 7⟩]⟩
 example : sinceClear [.addSubject ⟨false, [mC], true⟩, .clear, .addReuseable rA, .execute .union .evenOdd false, .addReuseable rL]
     = [rA, rL].map Op.addReuseable := by decide
 example : sinceClear [.setReverse true, .addReuseable rA, .addReuseable rL, .setReverse false] = [rA, rL].map Op.addReuseable := by decide
+
+/-- **Tie T for the comparator**: the hand-transcribed `locMinBefore` used by the history model is the definition that
+tools/cpp2lean.py regenerates from `LocMinSorter::operator()` on every run.  A change of the comparator in the source
+breaks this proof (and, on ties, the `HISTREPLAY` records). -/
+theorem lmBefore_is_generated (a b : Clipper.Model.History.LocalMin) :
+    Clipper.Model.History.locMinBefore a b = Clipper.Gen.LocMinSorter a.x a.y b.x b.y := by
+  unfold Clipper.Model.History.locMinBefore Clipper.Gen.LocMinSorter
+  by_cases h : b.y = a.y
+  · simp [h, Int.lt_irrefl]
+  · simp [h]
+
+/-- the same for the sort of the intersection list (used by the C10 scan model): descending y, then ascending x -/
+theorem intersectListSort_spec (ax ay bx b_y : Int) :
+    Clipper.Gen.IntersectListSort ax ay bx b_y = (decide (ay > b_y) || (decide (ay = b_y) && decide (ax < bx))) := by
+  unfold Clipper.Gen.IntersectListSort
+  by_cases h : ay = b_y
+  · simp [h, Int.lt_irrefl]
+  · simp [h]
 
 end Clipper.Props.C12
